@@ -42,12 +42,13 @@ def moves_and_defs(b, l):
             rv = st["rv"]
             ops = [rv.get("o"), rv.get("a"), rv.get("b")] + list(rv.get("fields", []))
             for o in ops:
-                if o and "m" in o and o["m"]["l"] == l and not o["m"]["p"]:
+                # a move of the whole local, or of one of its fields (moving `.0` out of a newtype around an Rc takes the Rc)
+                if o and "m" in o and o["m"]["l"] == l and "*" not in o["m"]["p"]:
                     moves.add(i)
         t = blk["term"]
         if t["t"] == "call":
             for a in t["args"]:
-                if "m" in a and a["m"]["l"] == l and not a["m"]["p"]:
+                if "m" in a and a["m"]["l"] == l and "*" not in a["m"]["p"]:
                     moves.add(i)
             if t["dest"]["l"] == l and not t["dest"]["p"]:
                 defs.add(i)
@@ -206,6 +207,7 @@ def run(ck):
     from props import C09, C14
 
     common.import_results(ck, C09, "2", "dispatch_events", "2c")
+    common.import_results(ck, C01, "4", None, "3")
     C14.lifecycle_set_follows(ck, "2c")
     common.import_results(ck, C05, "5", "Timer", "2c")
     if ck.has("stream"):
@@ -263,6 +265,12 @@ def run(ck):
         loopg = [p for p in pay if not p[1].startswith("DispatcherInner")]
         descr = "DROP:" + s.descr.split(":")[0].replace("drop ", "").strip().lstrip("(*_0123456789").strip(") ") + ":" + s.descr.split(": ", 1)[-1]
         b = s.body
+        # several release sites of the same place in one function: number them in CFG order (keys must be unique)
+        seen_d = ck.__dict__.setdefault("_drop_seen", {})
+        kd = (b.qual, descr)
+        seen_d[kd] = seen_d.get(kd, 0) + 1
+        if seen_d[kd] > 1:
+            descr += "#%d" % seen_d[kd]
         if not loopg:
             ck.ok("4", "T1-no-guard-across-user-code", b, descr, "no loop-state guard is live where this dispatcher reference is released", site=b.where(s.bb))
             continue
